@@ -609,6 +609,32 @@ def gen_all(repo, out, bindir):
         t += 'Definition g_rx_enabled {A : Type} (p : port A) : bool := false.\n'
     write_if_changed(os.path.join(out, 'GenPort.v'), t)
 
+    # ---- the eight condition-code helpers of Cpu (set_{c,v,z,n}_flag, {c,v,z,n}_flag) translated from their bodies
+    t = '(* GENERATED by tools/gen.py from /repo/src/cpu.rs -- do not edit *)\n'
+    t += 'From Coq Require Import ZArith Bool.\nFrom Dmd Require Import Model.Bits Model.Types Model.Cpu Gen.GenConsts.\nOpen Scope Z_scope.\n\n'
+    try:
+        for fl in 'cvzn':
+            body = find_fn(cpu, 'set_%s_flag' % fl).strip()
+            m = re.fullmatch(r'if\s+set\s*\{\s*self\.r\[(\w+)\]\s*\|=\s*(\w+)\s*;\s*\}\s*else\s*\{\s*self\.r\[(\w+)\]\s*&=\s*!\s*(\w+)\s*;\s*\}', body)
+            if not m:
+                raise GenError('set_%s_flag: body not understood' % fl)
+            for nm in m.groups():
+                if nm not in cc:
+                    raise GenError('set_%s_flag: %s is not a constant' % (fl, nm))
+            t += ('Definition g_set_%s_flag (m : mach) (set : bool) : mach :=\n  if set then setR m g_%s (Z.lor (R m g_%s) g_%s) else setR m g_%s (clr32 (R m g_%s) g_%s).\n'
+                  % (fl, m.group(1), m.group(1), m.group(2), m.group(3), m.group(3), m.group(4)))
+            body = find_fn(cpu, '%s_flag' % fl).strip()
+            m = re.fullmatch(r'\(\(self\.r\[(\w+)\]\s*&\s*(\w+)\)\s*>>\s*(\d+)\)\s*==\s*1', body)
+            if not m or m.group(1) not in cc or m.group(2) not in cc:
+                raise GenError('%s_flag: body not understood' % fl)
+            t += 'Definition g_%s_flag (m : mach) : bool := Z.shiftr (Z.land (R m g_%s) g_%s) %s =? 1.\n\n' % (fl, m.group(1), m.group(2), m.group(3))
+    except GenError as ex:
+        sys.stderr.write('gen: flag helpers not translated: %s\n' % ex)
+        t = t[:t.index('Open Scope Z_scope.') + len('Open Scope Z_scope.')] + '\n\n(* TRANSLATION FAILED: %s *)\n' % str(ex).replace('*)', '* )')
+        for fl in 'cvzn':
+            t += 'Definition g_set_%s_flag (m : mach) (set : bool) : mach := setR m 0 (-1).\nDefinition g_%s_flag (m : mach) : bool := negb (flag 0 m).\n' % (fl, fl)
+    write_if_changed(os.path.join(out, 'GenFlags.v'), t)
+
     # ---- census of the constructs that can panic in a release build: explicit (unwrap / expect / panic! / unimplemented! /
     # unreachable! / assert!), indexing and slicing, integer division and remainder; per function, test modules and the
     # cfg(dmd_core_verif) instrumentation excluded.  Consumed by C12 (Spec/PanicSites.v pins what the model accounts for).
